@@ -35,10 +35,11 @@ Record state := {
   cfg : config;
   buf : list entry;                     (* ring buffer, oldest first *)
   cur : option (list entry);            (* querylog.json, None = absent *)
-  rot : option (list entry)             (* querylog.json.1 *)
+  rot : option (list entry);            (* querylog.json.1 *)
+  pending : bool                        (* queryLog.flushPending *)
 }.
 
-Definition init (c : config) : state := {| cfg := c; buf := []; cur := None; rot := None |}.
+Definition init (c : config) : state := {| cfg := c; buf := []; cur := None; rot := None; pending := false |}.
 
 (** ** Operations *)
 Definition cap (c : config) : Z := Z.max 1 (mem_size c).
@@ -50,38 +51,54 @@ Definition push (c : config) (b : list entry) (e : entry) : list entry :=
   let b' := b ++ [e] in
   if lenZ b' >? cap c then tl b' else b'.
 
-(** flushLogBuffer: nothing to do on an empty buffer; else append, clear. *)
+(** flushLogBuffer: on an empty buffer encodeEntries returns an error before
+    it touches anything (also the pending flag); else append, clear the
+    buffer, reset the flag. *)
 Definition flush (s : state) : state :=
   match buf s with
   | [] => s
   | b => {| cfg := cfg s; buf := [];
-            cur := Some (match cur s with Some c => c ++ b | None => b end); rot := rot s |}
+            cur := Some (match cur s with Some c => c ++ b | None => b end); rot := rot s;
+            pending := false |}
   end.
 
-Definition add (s : state) (e : entry) : state :=
+(** Add without the goroutine it may spawn: the entry is pushed; when no
+    flush is pending, file logging is on and the buffer is full, the flag is
+    set (and `go flushLogBuffer` is started: a later [flush]). *)
+Definition add_async (s : state) (e : entry) : state :=
   if negb (enabled (cfg s)) then s else
-  let s' := {| cfg := cfg s; buf := push (cfg s) (buf s) e; cur := cur s; rot := rot s |} in
-  if file_enabled (cfg s) && (lenZ (buf s') >=? mem_size (cfg s)) then flush s' else s'.
+  let b := push (cfg s) (buf s) e in
+  {| cfg := cfg s; buf := b; cur := cur s; rot := rot s;
+     pending := pending s || (file_enabled (cfg s) && (lenZ b >=? mem_size (cfg s))) |}.
+
+(** Add followed at once by the flush it spawned (the harness waits for it:
+    the property's stated exclusion). *)
+Definition add (s : state) (e : entry) : state :=
+  let s' := add_async s e in
+  if negb (pending s) && pending s' then flush s' else s'.
 
 (** rotate: rename querylog.json -> querylog.json.1 when it exists. *)
 Definition rotate (s : state) : state :=
   match cur s with
   | None => s
-  | Some c => {| cfg := cfg s; buf := buf s; cur := None; rot := Some c |}
+  | Some c => {| cfg := cfg s; buf := buf s; cur := None; rot := Some c; pending := pending s |}
   end.
 
-Definition clear (s : state) : state := {| cfg := cfg s; buf := []; cur := None; rot := None |}.
+(** clear also resets the pending flag (a flush goroutine that comes later
+    finds the buffer empty and leaves the flag alone). *)
+Definition clear (s : state) : state :=
+  {| cfg := cfg s; buf := []; cur := None; rot := None; pending := false |}.
 
 (** Runtime configuration change (HTTP API / client settings). *)
 Definition set_config (s : state) (en : bool) (ign : list bytes) (cl : list (bytes * client)) : state :=
   {| cfg := {| enabled := en; file_enabled := file_enabled (cfg s); mem_size := mem_size (cfg s);
                ignored := ign; clients := cl |};
-     buf := buf s; cur := cur s; rot := rot s |}.
+     buf := buf s; cur := cur s; rot := rot s; pending := pending s |}.
 
 (** Shutdown (flush when file logging is on) + newQueryLog with [c]. *)
 Definition restart (s : state) (c : config) : state :=
   let s' := if file_enabled (cfg s) then flush s else s in
-  {| cfg := c; buf := []; cur := cur s'; rot := rot s' |}.
+  {| cfg := c; buf := []; cur := cur s'; rot := rot s'; pending := false |}.
 
 (** ** Matching *)
 Definition lower (b : N) : N := if (65 <=? b)%N && (b <=? 90)%N then (b + 32)%N else b.
@@ -334,6 +351,7 @@ Definition handle (me bf : Z) (s : state) (q : request) : outcome :=
 (** ** Histories *)
 Inductive op :=
   | OAdd (e : entry)
+  | OAddAsync (e : entry)      (* Add whose spawned flush has not run yet *)
   | OFlush | ORotate | OClear
   | OSetConfig (en : bool) (ign : list bytes) (cl : list (bytes * client))
   | ORestart (c : config).
@@ -341,6 +359,7 @@ Inductive op :=
 Definition step (s : state) (o : op) : state :=
   match o with
   | OAdd e => add s e
+  | OAddAsync e => add_async s e
   | OFlush => flush s
   | ORotate => rotate s
   | OClear => clear s
